@@ -34,7 +34,7 @@ RULE = (
 )
 ASSUMPTIONS = [
     "tojson: values are JSON-representable with str keys and finite floats; equality after json.loads ignores dict order",
-    "xmlattr: str keys, non-empty; values are plain (a Markup value is trusted by design and not generated); a key containing tab, LF, FF, CR, space, '/', '>' or '=' must raise ValueError; a key containing VT may or may not; an item whose value is None/undefined is skipped before its key is looked at",
+    "xmlattr: str keys, non-empty; values are plain strings, numbers, bools and non-string objects (lists, tuples, sets, dicts, bytes, objects with a custom __str__) whose str() must come out escaped; a Markup / __html__ value is trusted by design and not generated; a key containing tab, LF, FF, CR, space, '/', '>' or '=' must raise ValueError; a key containing VT may or may not; an item whose value is None/undefined is skipped before its key is looked at",
     "urlize: input is a plain str; extra_schemes are valid scheme prefixes; mailto links may omit rel/target; with trim_url_limit the shortened label may end in a cut-off entity (no < > \" ' though)",
     "urlize positive check: a word that is exactly one of 8 canonical URLs / addresses must be linked",
     "safe-argument filters: exact expected output only for (all plain) and (Markup value + plain arguments); with Markup arguments only the tracer rule is judged (over-escaping a safe argument is not a leak)",
@@ -196,6 +196,8 @@ def _check_xmlattr(case):
     must = any(ch in fs.XMLATTR_MUST_REJECT for k, _ in live for ch in k)
     may = any(ch in fs.XMLATTR_MAY_REJECT for k, _ in live for ch in k)
     labels = ["xmlattr", "must_reject" if must else ("may_reject" if may else "accept")]
+    if any(not isinstance(v, (str, int, float, bool)) for _, v in live):
+        labels.append("nonstring_value")
 
     def judge(where, r, text, ae):
         if isinstance(r, Raised):
@@ -498,6 +500,20 @@ MAYBE_KEYS = ["a\x0bb"]
 ATTR_VALUES = ["", "v", "a b", "\"", "'", "<", ">", "&", "\"><script>x</script>", "' onmouseover='x", "&amp;", "&#34;", "a\nb", "é", "\\", "x\" y=\"z", "`", "{{7*7}}"]
 
 
+def _nonstring_value():
+    """Values that are not strings but whose str() carries markup characters: "escapes every value" does not
+    depend on the value's type."""
+    adv = st.one_of(st.sampled_from(ATTR_VALUES), _nasty(3))
+    return st.one_of(
+        st.lists(adv, max_size=3),
+        st.lists(adv, max_size=2).map(lambda xs: {"$": "t", "v": xs}),
+        adv.map(lambda x: {"$": "set", "v": [x]}),
+        st.lists(st.tuples(adv, adv), max_size=2).map(lambda kv: {"$": "d", "v": [list(t) for t in kv]}),
+        st.sampled_from(['"><script>', "a'b", "<&>", "plain", ""]).map(lambda x: {"$": "bytes", "v": x}),
+        adv.map(lambda x: {"$": "strobj", "v": x}),
+    )
+
+
 @st.composite
 def _g_xmlattr(draw):
     keys = draw(st.lists(st.one_of(st.sampled_from(GOOD_KEYS), st.sampled_from(GOOD_KEYS), st.sampled_from(GOOD_KEYS), st.sampled_from(BAD_KEYS),
@@ -506,7 +522,7 @@ def _g_xmlattr(draw):
         keys = [k for k in keys if k in GOOD_KEYS]
     items = []
     for k in keys:
-        v = draw(st.one_of(st.sampled_from(ATTR_VALUES), st.sampled_from(ATTR_VALUES), _nasty(4), st.sampled_from([0, 1, -5, 2.5, True, False]),
+        v = draw(st.one_of(st.sampled_from(ATTR_VALUES), st.sampled_from(ATTR_VALUES), _nasty(4), st.sampled_from([0, 1, -5, 2.5, True, False]), _nonstring_value(),
                            st.sampled_from([None, {"$": "undef"}])))
         items.append([k, v])
     args, kwargs = [], {}
@@ -697,7 +713,7 @@ def run_shard(spec, ctx):
 
 
 def floors(total, tier):
-    need = {"tojson": 2000, "xmlattr": 2000, "must_reject": 300, "accept": 500, "urlize": 2000, "anchors": 1000, "trim": 200, "extra_schemes": 100,
+    need = {"tojson": 2000, "xmlattr": 2000, "nonstring_value": 500, "must_reject": 300, "accept": 500, "urlize": 2000, "anchors": 1000, "trim": 200, "extra_schemes": 100,
             "escape": 200, "forceescape": 200, "tracer": 2000, "exact": 1000, "value_safe": 1000, "args_plain": 1000}
     need.update({"safearg_" + n: 200 for n in ("indent", "replace", "join", "format", "truncate", "wordwrap")})
     for lab, n in need.items():
